@@ -552,6 +552,8 @@ func init() {
 			// ids {"a","ab","x"}: "a" carries a value and has one child, away from the root; point queries for every id
 			c01(map[string]int{"N": 2, "PRE": 3, "IDSET": 2, "WPT": 2, "OPMAX": 1}, 10),
 			step,
+			// an iterator obtained through the write transaction (one kind per path) is frozen against that transaction's later writes
+			{Entry: "VerifC01WtxnIter", Covers: []string{"C01.wtxn-iterator.end"}, DiffRuns: 20},
 			// a reader thread against a writer thread, switching at every synchronisation operation
 			{Entry: "VerifC01Reader", Params: map[string]int{"N": 1}, Covers: []string{"C01.reader.end"}, NoNative: true, Preempt: 2, Budget2: 2, Deadlock: true},
 		},
